@@ -67,6 +67,10 @@ def main(tier, only=None):
     rep.cov['bounds'] = {'rows_per_chunk': '1-2 (quick) / 1-3 (thorough)', 'element types': 'Int32 (quick) / Int32, Int64 (thorough)', 'values': '|raw| <= 2^20 (overflow is decided under C14)',
                          'prior state': 'initial state and an arbitrary prior value'}
     rep.assumptions = ['only the aggregation paths are compared; join and sort executors are coroutines (outside)', 'Evaluator::{node,next,eval} and DataChunk::cardinality are modelled at the boundary (crate contracts)']
+    # the join / aggregation / top-N executors are coroutines no solver back end reaches: their contracts are probed
+    if not only:
+        from relsmt import conform
+        conform.run(rep, 'C11', thorough)
     return rep.finish()
 
 
